@@ -168,6 +168,7 @@ func genParse(c *ctx) string {
 	fmt.Fprintf(&b, "def fragCondPosAfterToken : Bool := %s\n", fragCondPosAfterToken(c))
 	fmt.Fprintf(&b, "def varDefPosAfterToken : Bool := %s\n", varDefPosAfterToken(c))
 	fmt.Fprintf(&b, "def argPosAfterToken : Bool := %s\n", argPosAfterToken(c))
+	fmt.Fprintf(&b, "def opLineBeforeSkip : Bool := %s\n", opLineBeforeSkip(c))
 	fmt.Fprintf(&b, "def maxParseDepth : Option Nat := %s\n", maxParseDepth(c))
 	type ent struct{ name, h string }
 	var ents []ent
@@ -276,4 +277,23 @@ func argPosAfterToken(c *ctx) string {
 		return "false"
 	}
 	return unknown("readArgValue position", c.pos(fd))
+}
+
+// opLineBeforeSkip reads (*exeParser).readOp: after skipping to the operation's name the column is taken from the
+// scanner; is the line taken too, or kept from before the skip (D88)?
+func opLineBeforeSkip(c *ctx) string {
+	fd := c.funcs["exeParser.readOp"]
+	if fd == nil {
+		return unknown("readOp", "exeparser.go")
+	}
+	t := regexp.MustCompile(`(?m)//.*$`).ReplaceAllString(c.src(fd.Body), "")
+	src := regexp.MustCompile(`\s+`).ReplaceAllString(t, " ")
+	const head = "{ op = &Op{Type: opType, SelBase: SelBase{line: p.line, col: p.col}} if _, err = p.skipSpace(); err == nil { "
+	switch {
+	case strings.HasPrefix(src, head+"op.col = p.col op.Name, err = p.readToken() }"):
+		return "true"
+	case strings.HasPrefix(src, head+"op.line = p.line op.col = p.col op.Name, err = p.readToken() }"):
+		return "false"
+	}
+	return unknown("readOp position", c.pos(fd))
 }
